@@ -645,8 +645,8 @@ class VArr:
         if f is None:
             raise Unsupported("in-place array operator")
         r = self._arith(o, f, opname={ast.Add: "+", ast.Sub: "-", ast.Mult: "*"}[op])
-        if self.dtype_name == "bool" and r.dtype_name != "bool":
-            raise PyRaise(PyExc(TypeError, ("Cannot cast ufunc output to dtype('bool') with casting rule 'same_kind'",)))
+        if not _same_kind_castable(r.dtype_name, self.dtype_name):
+            raise PyRaise(PyExc(TypeError, (f"Cannot cast ufunc output from dtype('{r.dtype_name}') to dtype('{self.dtype_name}') with casting rule 'same_kind'",)))
         cur().event("arr-write", self.buf, self.owner)
         self.term = z3.simplify(_cast_term(r.term, r.dtype_name, self.dtype_name))
         return self
@@ -943,13 +943,29 @@ def _cast_term(t, src, dst):
     if dst.startswith("float"):
         return z3.ToReal(t) if z3.is_int(t) else t
     if z3.is_real(t):
-        t = z3.ToInt(t)
+        # float -> integer: truncation toward zero when the value fits; out of range the C conversion is undefined (numpy's result
+        # is platform dependent), modelled as an unspecified function of the value
+        r = dtype_range(dst)
+        tr = z3.If(t >= 0, z3.ToInt(t), -z3.ToInt(-t))
+        if r is None:
+            return tr
+        unspec = z3.Function(f"float_to_{dst}_out_of_range", R_, I_)
+        return z3.If(z3.And(tr >= r[0], tr <= r[1]), tr, unspec(t))
     if src == dst:
         return t
     r_src, r_dst = dtype_range(src), dtype_range(dst)
     if r_src and r_dst and r_dst[0] <= r_src[0] and r_src[1] <= r_dst[1]:
         return t  # widening: value preserved
     return wrap_mod(t, dst)
+
+
+def _kind_rank(dt):
+    return 0 if dt == "bool" else 1 if dt in UINT_BITS else 2 if dt in INT_BITS else 3
+
+
+def _same_kind_castable(src, dst):
+    """np.can_cast(src, dst, 'same_kind'): within a kind any size, or towards a higher kind (bool < unsigned < signed < float)"""
+    return _kind_rank(src) <= _kind_rank(dst)
 
 
 def _cast_scalar(v, dst):
@@ -1298,7 +1314,18 @@ class NpModule:
         ta = a.term if isinstance(a, VArr) else to_term(a)
         tb = b.term if isinstance(b, VArr) else to_term(b)
         ta, tb = _num_terms(ta, tb)
-        dt = a.dtype_name if isinstance(a, VArr) else (b.dtype_name if isinstance(b, VArr) else "int64")
+        if isinstance(a, VArr) and isinstance(b, VArr):
+            dt = _array_array_dtype(a.dtype_name, b.dtype_name)
+            ta, tb = _cast_term(a.term, a.dtype_name, dt), _cast_term(b.term, b.dtype_name, dt)
+            ta, tb = _num_terms(ta, tb)
+        elif isinstance(a, VArr) or isinstance(b, VArr):
+            arr, sc = (a, b) if isinstance(a, VArr) else (b, a)
+            dt = _array_scalar_dtype(cur(), arr.dtype_name, sc)
+            ta = _cast_term(ta, arr.dtype_name if isinstance(a, VArr) else dt, dt) if isinstance(a, VArr) else ta
+            tb = _cast_term(tb, arr.dtype_name if isinstance(b, VArr) else dt, dt) if isinstance(b, VArr) else tb
+            ta, tb = _num_terms(ta, tb)
+        else:
+            dt = "int64"
         return VArr(z3.simplify(z3.If(c.nonzero_term(), ta, tb)), dt, c.space)
 
     def _shape_space(self, shape):
